@@ -87,6 +87,8 @@ type Gen struct {
 	inCtr  int64
 	defCtr int64
 	counts map[string]map[string]int // kind -> result -> n
+	lastTx  uint64                    // transaction hash and message index of the last generated call
+	lastIdx int64
 	k3     float64                   // probability that a call targets the module-registered service (known finding K3)
 	// C19: every generated history exports once near its end (and with ~3 % anywhere);
 	// about half of the histories use only 20-byte provider addresses so that the full
@@ -488,6 +490,18 @@ func (g *Gen) next0() *Op {
 		if g.chance(0.4) {
 			o.Dep = g.depositAround(int64(rng.Intn(300)))
 		}
+		if b, ok := s.Binds[bindKey{a.svcName[svc], string(a.addr(prov))}]; ok && o.Pr.Kind == "P" && g.chance(0.5) {
+			// price change together with a top-up around the shortfall of the NEW minimum
+			// (exactly it, one less, half of it, just above half: a top-up counted twice shows there)
+			short := g.minDepositFor(o.Pr) - amountOf(b.Deposit).Int64()
+			if short > 1 {
+				cands := []int64{short, short - 1, short / 2, short/2 + 1, (short + 1) / 2, short + 1}
+				o.Dep = CoinsArg{Kind: "B", Amt: cands[rng.Intn(len(cands))]}
+				if o.Dep.Amt < 1 {
+					o.Dep.Amt = 1
+				}
+			}
+		}
 		if g.chance(0.3) {
 			o.QoS = uint64(1 + rng.Intn(int(r.cfg.MaxTimeout)+1))
 		}
@@ -569,6 +583,11 @@ func (g *Gen) call(module bool) *Op {
 	a := r.a
 	g.inCtr++
 	o := &Op{Kind: "call", Tx: g.freshTx(), Idx: int64(rng.Intn(3)), Svc: pick(rng, svcAtoms), Cons: pick(rng, consumerAtoms), Input: g.inCtr, InputOK: !g.chance(0.03)}
+	if g.lastTx != 0 && g.lastIdx < 6 && g.chance(0.2) {
+		// a further MsgCallService of the SAME transaction: same hash, next message index
+		o.Tx, o.Idx = g.lastTx, g.lastIdx+1
+	}
+	g.lastTx, g.lastIdx = o.Tx, o.Idx
 	if module {
 		o.Kind = "modcall"
 		o.Mod = cbModAtom
